@@ -56,8 +56,23 @@ impl HttpResponse {
 
 #[verifier::external_body]
 pub struct FrameIO { _p: u8 }
+/// what can be handed to frames_from_stream.  C12: bytes the peer sent in the same segment as the CONNECT head sit in the
+/// handshake's read-ahead buffer; the inline frame reader must be built on the stream THAT STILL OWNS that buffer.
+pub trait FrameStreamSource { spec fn keeps_readahead(&self) -> bool; }
+impl FrameStreamSource for ClientStream { open spec fn keeps_readahead(&self) -> bool { true } }
+/// the raw socket after BufReader/BufWriter::into_inner(): the read-ahead bytes are gone
 #[verifier::external_body]
-pub fn frames_from_stream(session_id: u32, stream: ClientStream) -> (r: FrameIO) { unimplemented!() }
+pub struct RawHalf { _p: u8 }
+#[verifier::external_body]
+pub struct RawStream { _p: u8 }
+impl FrameStreamSource for RawStream { open spec fn keeps_readahead(&self) -> bool { false } }
+impl FrameStreamSource for RawHalf { open spec fn keeps_readahead(&self) -> bool { false } }
+impl ClientStream { #[verifier::external_body] pub fn into_inner(self) -> (r: RawHalf) { unimplemented!() } }
+impl RawHalf { #[verifier::external_body] pub fn into_inner(self) -> (r: RawStream) { unimplemented!() } }
+#[verifier::external_body]
+pub fn frames_from_stream<S: FrameStreamSource>(session_id: u32, stream: S) -> (r: FrameIO)
+    requires stream.keeps_readahead(),
+{ unimplemented!() }
 
 pub struct Context { pub stream: Option<ClientStream>, pub frames_set: bool }
 impl Context {
